@@ -205,8 +205,7 @@ def check_siblings(ck, repo, funcs, all_models):
         pairs = 0
         for pi in all_models[fi.qualname]:
             for pn in all_models[fn.qualname]:
-                if pn.meta["programme"] != "none":
-                    continue
+                # (with a temperature programme too: the programme takes over from step 1, step 0 is the stated initial state)
                 if (pi.meta["basis"], pi.meta["mode"], pi.meta["initial_permeances"], pi.meta.get("units")) != \
                         (pn.meta["basis"], pn.meta["mode"], pn.meta["initial_permeances"], pn.meta.get("units")):
                     continue
